@@ -4,6 +4,7 @@ PYTHONPATH).  One JSON request per input line, one JSON answer per output line.
   {"op":"text","text":T}       lex T with the real lark lexer, parse_database(T), Encoder.encode_string,
                                parse again, print again
   {"op":"ast","ast":S}         build real AST objects from prefix string S, encode_string, lex + parse it
+  {"op":"seq","texts":[T1,T2,..]}  parse the texts one after the other in this process (history dependence)
   {"op":"slice","ast":S | "text":T, "sd":null|{label:[deps]}, "incl":null|[labels], "excl":[labels]}
                                slice_database (generator driven until it raises), each slice: AST,
                                printed text, re-parsed AST
@@ -193,6 +194,18 @@ def do_slice(req):
     return res
 
 
+def do_seq(req):
+    """several databases parsed one after the other in THIS process; for each: the AST, its printed text,
+    and (for the later ones) the slices of the AST obtained here"""
+    out = []
+    for k, text in enumerate(req['texts']):
+        item = do_text({'text': text})
+        if item.get('ast') is not None and k > 0:
+            item['slice'] = do_slice({'ast': item['ast']})
+        out.append(item)
+    return {'seq': out}
+
+
 def main():
     for line in sys.stdin:
         line = line.strip()
@@ -206,6 +219,8 @@ def main():
                 res = do_ast(req)
             elif req['op'] == 'slice':
                 res = do_slice(req)
+            elif req['op'] == 'seq':
+                res = do_seq(req)
             else:
                 res = {'error': 'unknown op'}
         except Exception as e:  # noqa: BLE001
